@@ -5194,7 +5194,7 @@ func (jmp iterNext) exec(vm *vm) {
 		l := len(vm.iterStack) - 1
 		vm.iterStack[l] = iterStackItem{}
 		vm.iterStack = vm.iterStack[:l]
-		vm.throw(ex.val)
+		vm.throw(ex) // not ex.val: the stack captured at the throw site inside next() must be kept
 		return
 	}
 }
@@ -5212,7 +5212,7 @@ func (iterGetNextOrUndef) exec(vm *vm) {
 			l := len(vm.iterStack) - 1
 			vm.iterStack[l] = iterStackItem{}
 			vm.iterStack = vm.iterStack[:l]
-			vm.throw(ex.val)
+			vm.throw(ex) // not ex.val: the stack captured at the throw site inside next() must be kept
 			return
 		}
 	}
